@@ -40,6 +40,19 @@ func (e *Engine) verifyFunc(key string) (vc *VC, err error) {
 	vc.bitsExact = c.Attrs["bits"] == "exact"
 	vc.nativeArith = c.Attrs["arith"] == "native"
 	vc.axioms = strings.Fields(c.Attrs["axioms"])
+	if ks, ok := c.Attrs["obligations"]; ok {
+		vc.onlyKinds = map[string]bool{}
+		for _, k := range strings.Fields(ks) {
+			vc.onlyKinds[k] = true
+		}
+		vc.assumed["thin contract for "+key+": only obligations of kinds ["+ks+"] are generated and claimed"] = true
+	}
+	if ls, ok := c.Attrs["only-labels"]; ok {
+		vc.onlyLabels = map[string]bool{}
+		for _, l := range strings.Fields(ls) {
+			vc.onlyLabels[l] = true
+		}
+	}
 	st := &State{heaps: map[string]string{}, alloc: "alloc@0"}
 	fr := &Frame{eng: e, vc: vc, fn: fn, key: key, vals: map[ssa.Value]*Val{}, st: st, reach: "true", contract: c, top: true,
 		overflow: c.Attrs["overflow"] == "check"}
@@ -137,6 +150,9 @@ func (e *Engine) frameObligations(fr *Frame, c *Contract, names map[string]*Val)
 	}
 	declared := map[string][]string{}
 	for _, m := range c.Modifies {
+		if m.Src == "nothing" {
+			continue
+		}
 		locs, err := fr.evalModifies(m, &evalCtx{fr: fr, st: fr.entry, old: fr.entry, names: names})
 		if err != nil {
 			fr.stale("modifies", err)
